@@ -3,6 +3,10 @@ import TongoProofs.Lemmas.TlbStack
 import TongoProofs.Lemmas.TlbCanon
 import TongoProofs.Lemmas.TlbChain
 import TongoProofs.Lemmas.TlbOpBody
+import TongoProofs.Lemmas.TlbBitsRefine
+import TongoProofs.Lemmas.TlbNoPanic
+import TongoProofs.Lemmas.TlbDictOrder
+import TongoProofs.Lemmas.TlbCanonCell
 import TongoGen.TlbTypes
 import TongoGen.AbiOpcodes
 import TongoGen.IntTypes
@@ -72,9 +76,10 @@ theorem same_constructor (env : Env) (hEnv : EnvWF env) (cs : Ctors) (hw : wfb e
 /-- **reencode_hash**, the unrestricted statement: decoding ANY cell and encoding the result reproduces the hash. It is
 FALSE for most shipped types (witnesses below: `reencode_varuint_witness`, `reencode_ref_witness`,
 `reencode_trailing_witness`; for dictionaries C05's label witnesses) — it holds exactly for
-the canonical types on cells the decoder consumed entirely: `reencode_hash_canonical`. For every well-formed type the
-proved part is `reencode_hash_partial`; on real chain data the statement is checked by the harness (ops `go.redec`,
-C04 evidence lists the non-canonical records). -/
+the canonical types on cells the decoder consumed entirely (`reencode_hash_canonical`) and, for EVERY type the
+checker `canonAt` walks — the types the property names among them —, exactly on the cells that satisfy the decidable
+predicate `canonicalCell` (`reencode_canonical_cell`, `noncanonical_cell_witnesses`). `reencode_own_output` is only
+about the encoder's own output. On real chain data the predicate is evaluated by the harness (op `tlb.canon`). -/
 def ReencodeHash (H : List UInt8 → List UInt8) (env : Env) (T : Ty) : Prop :=
   ∀ fuel (c : Cell) v rest b', decode env fuel T (Slice.ofCell c) = .ok (v, rest) →
     encode env fuel T v Builder.empty = .ok b' → Cell.reprHash H b'.toCell = Cell.reprHash H c
@@ -112,7 +117,7 @@ theorem reencode_hash_canonical (H : List UInt8 → List UInt8) (env : Env) (T :
     simp [Builder.empty, Builder.app, Builder.toCell]
   exact ⟨hcell, by rw [hcell]⟩
 
-/-- the canonical regenerated descriptors (185 of the named types on the current source, e.g. ExtBlkRef, BlockIdExt's
+/-- the canonical regenerated descriptors (190 of the named types of the environment, 330 of the 721 `wf_` descriptors on the current source, e.g. ExtBlkRef, BlockIdExt's
 parts, HashUpdate, TickTock, SplitMergeInfo, the fixed-layout config parameters, the wallet data records): for every
 entry of the regenerated environment that passes the check, `reencode_hash_canonical` applies -/
 theorem reencode_hash_generated (H : List UInt8 → List UInt8) (T : Ty)
@@ -193,10 +198,10 @@ theorem magic_orig_defect :
       | _, _ => false) = true := by
   decide
 
-/-- **reencode_hash_partial** (side condition "decoded from our own encoding"): a cell produced by the encoder
-decodes to a value whose encoding is the same cell — in particular the same representation hash, for any hash
-function. -/
-theorem reencode_hash_partial (H : List UInt8 → List UInt8) (env : Env) (hEnv : EnvWF env) (T : Ty)
+/-- **reencode_own_output** (formerly `reencode_hash_partial`; it quantifies over the ENCODER'S OWN OUTPUT, i.e. it is
+the round trip plus determinism and says nothing about cells that come from elsewhere): a cell produced by the encoder
+decodes to a value whose encoding is the same cell. For foreign cells: `reencode_canonical_cell`. -/
+theorem reencode_own_output (H : List UInt8 → List UInt8) (env : Env) (hEnv : EnvWF env) (T : Ty)
     (hw : wfTop env T = true) (fuel : Nat) (v : Val) (hd : inDom env fuel T v = true) (b1 : Builder)
     (he : encode env fuel T v Builder.empty = .ok b1) (v2 : Val) (rest : Slice)
     (hdec : decode env fuel T (Slice.ofCell b1.toCell) = .ok (v2, rest)) (b2 : Builder)
@@ -209,6 +214,171 @@ theorem reencode_hash_partial (H : List UInt8 → List UInt8) (env : Env) (hEnv 
   rw [he] at he2
   cases he2
   exact ⟨rfl, rfl⟩
+
+/-! ## Re-encoding FOREIGN cells: the cell-level canonicity check
+
+`canonicalCell env fuel T c` (TongoModel/Tlb/CanonCell.lean) is decidable and is about the CELL, not about the
+encoder: `c` is an ordinary level-0 cell; walking `T` over it like the decoder, every `VarUInteger` / `Grams` has a
+minimal length prefix, every child behind a reference is itself an ordinary, canonical, entirely consumed cell
+(`^Cell`: any child that is not pruned), every dictionary is a tree of ordinary cells whose labels are in the form
+`Hashmap.encLabelBits` picks (TON's shortest form), whose forks hold two references and nothing else and whose leaf
+values are canonical and fill the leaf; `Any` is what is left; the whole cell is consumed. -/
+
+/-- **reencode_canonical_cell** — for EVERY descriptor and every cell that passes the check: if the decoder answers
+`v` and the encoder accepts `v`, the encoder rebuilds THE SAME CELL, hence the same representation hash (any hash
+function). No hypothesis on the type: what a type must satisfy is part of the check (`canonAt` answers `none` on
+constructs it does not know). By the converse induction over descriptors for cells (`Lemmas/TlbCanonCell.CInvC`), with
+`Lemmas/TlbCanonDict.dict_canon_encode` for the dictionaries (the cell tree IS what C05's `encodeMap` builds from the
+decoded entries) and `Lemmas/TlbCanonPrim` for `Grams` / `VarUInteger` / `MsgAddress` / `Any`. -/
+theorem reencode_canonical_cell (H : List UInt8 → List UInt8) (env : Env) (T : Ty) (fuel : Nat) (c : Cell)
+    (hc : canonicalCell env fuel T c = true) (v : Val) (rest : Slice) (b' : Builder)
+    (hd : decode env fuel T (Slice.ofCell c) = .ok (v, rest))
+    (he : encode env fuel T v Builder.empty = .ok b') :
+    b'.toCell = c ∧ Cell.reprHash H b'.toCell = Cell.reprHash H c := by
+  have hcell : b'.toCell = c := child_rebuilt ((CInvC.all env fuel).dec T) c v rest hd hc b' he
+  exact ⟨hcell, by rw [hcell]⟩
+
+/-- inside a cell (the inline form): whatever slice passes `canonAt`, the value the decoder returns is re-encoded —
+into any builder — to exactly the bits AND references the check walked over; for a type that is not greedy the check
+stops where the decoder stops -/
+theorem reencode_canonical_inline (env : Env) (T : Ty) (fuel : Nat) (s s' rest : Slice) (v : Val)
+    (hd : decode env fuel T s = .ok (v, s')) (hc : canonAt env fuel T s = some rest) :
+    ∃ xs rs, s = rest.prepend xs rs ∧ (∀ b b', encode env fuel T v b = .ok b' → b' = b.app xs rs) ∧
+      (NG env T → rest = s') :=
+  (CInvC.all env fuel).dec T s v s' hd rest hc
+
+/-- the types the property names, over the REGENERATED descriptors and environment (instances; nothing else to
+discharge): a Message / StateInit / Transaction / CurrencyCollection / Account cell from the chain that satisfies
+`canonicalCell` is reproduced bit for bit and reference for reference -/
+theorem reencode_tlb_Message (H : List UInt8 → List UInt8) (fuel : Nat) (c : Cell)
+    (hc : canonicalCell TongoGen.TlbTypes.env fuel TongoGen.TlbTypes.desc_tlb_Message c = true)
+    (v : Val) (rest : Slice) (b' : Builder)
+    (hd : decode TongoGen.TlbTypes.env fuel TongoGen.TlbTypes.desc_tlb_Message (Slice.ofCell c) = .ok (v, rest))
+    (he : encode TongoGen.TlbTypes.env fuel TongoGen.TlbTypes.desc_tlb_Message v Builder.empty = .ok b') :
+    b'.toCell = c ∧ Cell.reprHash H b'.toCell = Cell.reprHash H c :=
+  reencode_canonical_cell H _ _ fuel c hc v rest b' hd he
+
+theorem reencode_tlb_StateInit (H : List UInt8 → List UInt8) (fuel : Nat) (c : Cell)
+    (hc : canonicalCell TongoGen.TlbTypes.env fuel TongoGen.TlbTypes.desc_tlb_StateInit c = true)
+    (v : Val) (rest : Slice) (b' : Builder)
+    (hd : decode TongoGen.TlbTypes.env fuel TongoGen.TlbTypes.desc_tlb_StateInit (Slice.ofCell c) = .ok (v, rest))
+    (he : encode TongoGen.TlbTypes.env fuel TongoGen.TlbTypes.desc_tlb_StateInit v Builder.empty = .ok b') :
+    b'.toCell = c ∧ Cell.reprHash H b'.toCell = Cell.reprHash H c :=
+  reencode_canonical_cell H _ _ fuel c hc v rest b' hd he
+
+theorem reencode_tlb_Transaction (H : List UInt8 → List UInt8) (fuel : Nat) (c : Cell)
+    (hc : canonicalCell TongoGen.TlbTypes.env fuel TongoGen.TlbTypes.desc_tlb_Transaction c = true)
+    (v : Val) (rest : Slice) (b' : Builder)
+    (hd : decode TongoGen.TlbTypes.env fuel TongoGen.TlbTypes.desc_tlb_Transaction (Slice.ofCell c) = .ok (v, rest))
+    (he : encode TongoGen.TlbTypes.env fuel TongoGen.TlbTypes.desc_tlb_Transaction v Builder.empty = .ok b') :
+    b'.toCell = c ∧ Cell.reprHash H b'.toCell = Cell.reprHash H c :=
+  reencode_canonical_cell H _ _ fuel c hc v rest b' hd he
+
+theorem reencode_tlb_CurrencyCollection (H : List UInt8 → List UInt8) (fuel : Nat) (c : Cell)
+    (hc : canonicalCell TongoGen.TlbTypes.env fuel TongoGen.TlbTypes.desc_tlb_CurrencyCollection c = true)
+    (v : Val) (rest : Slice) (b' : Builder)
+    (hd : decode TongoGen.TlbTypes.env fuel TongoGen.TlbTypes.desc_tlb_CurrencyCollection (Slice.ofCell c)
+      = .ok (v, rest))
+    (he : encode TongoGen.TlbTypes.env fuel TongoGen.TlbTypes.desc_tlb_CurrencyCollection v Builder.empty = .ok b') :
+    b'.toCell = c ∧ Cell.reprHash H b'.toCell = Cell.reprHash H c :=
+  reencode_canonical_cell H _ _ fuel c hc v rest b' hd he
+
+theorem reencode_tlb_Account (H : List UInt8 → List UInt8) (fuel : Nat) (c : Cell)
+    (hc : canonicalCell TongoGen.TlbTypes.env fuel TongoGen.TlbTypes.desc_tlb_Account c = true)
+    (v : Val) (rest : Slice) (b' : Builder)
+    (hd : decode TongoGen.TlbTypes.env fuel TongoGen.TlbTypes.desc_tlb_Account (Slice.ofCell c) = .ok (v, rest))
+    (he : encode TongoGen.TlbTypes.env fuel TongoGen.TlbTypes.desc_tlb_Account v Builder.empty = .ok b') :
+    b'.toCell = c ∧ Cell.reprHash H b'.toCell = Cell.reprHash H c :=
+  reencode_canonical_cell H _ _ fuel c hc v rest b' hd he
+
+/-! ### the check on literal cells (TESTS): inhabited, and every condition is needed -/
+namespace CanonTest
+open TongoGen.TlbTypes
+
+/-- `Hashmap 32 (VarUInteger 32)` with the single entry 7 ↦ 9, label in the encoder's form (hml_long) -/
+def dictLong : Cell := .mk 0 0 ([true, false] ++ natToBits 6 32 ++ natToBits 32 7 ++ (natToBits 5 1 ++ natToBits 8 9)) []
+/-- the same dictionary, label in the form hml_short (valid TL-B, longer: not what the encoder picks) -/
+def dictShort : Cell :=
+  .mk 0 0 ([false] ++ Hashmap.unary 32 ++ natToBits 32 7 ++ (natToBits 5 1 ++ natToBits 8 9)) []
+/-- the same entry with a non-minimal VarUInteger 32 value: len = 2, bytes 00 09 -/
+def dictFat : Cell := .mk 0 0 ([true, false] ++ natToBits 6 32 ++ natToBits 32 7 ++ (natToBits 5 2 ++ natToBits 16 9)) []
+/-- two entries 2 ↦ 1, 3 ↦ 1: a fork under the 31-bit label 0…01, leaves with empty labels -/
+def leaf1 : Cell := .mk 0 0 ([false, false] ++ (natToBits 5 1 ++ natToBits 8 1)) []
+def fork : Cell := .mk 0 0 ([true, false] ++ natToBits 6 31 ++ natToBits 31 1) [leaf1, leaf1]
+/-- `currencies$_ grams:Grams other:ExtraCurrencyCollection`: 5 nanoton and the dictionary behind `root` -/
+def cc (root : Cell) : Cell := .mk 0 0 (natToBits 4 1 ++ natToBits 8 5 ++ [true]) [root]
+/-- a StateInit with code and data (`^Cell`: any cells), no library -/
+def stateInit (code data : Cell) : Cell := .mk 0 0 [false, false, true, true, false] [code, data]
+def someCell : Cell := .mk 0 0 (natToBits 10 700) [.mk 0 0 [true] []]
+/-- an external-in message: ext_in_msg_info$10 src:addr_none dest:addr_std(wc 0, 256 bits) import_fee:0, no init,
+body inline (`Any`: the 12 bits that follow) -/
+def extIn : Cell :=
+  .mk 0 0 ([true, false] ++ [false, false] ++ ([true, false] ++ [false] ++ natToBits 8 0 ++ natToBits 256 12345)
+    ++ natToBits 4 0 ++ [false] ++ [false] ++ natToBits 12 2748) []
+/-- the same message with its state-init behind a reference and its body behind a reference -/
+def extInRefs : Cell :=
+  .mk 0 0 ([true, false] ++ [false, false] ++ ([true, false] ++ [false] ++ natToBits 8 0 ++ natToBits 256 12345)
+    ++ natToBits 4 0 ++ [true, true] ++ [true]) [stateInit someCell someCell, someCell]
+
+set_option maxRecDepth 100000 in
+/-- canonical cells of the types the property names: minimal Grams, empty / one-leaf / forked dictionary, references,
+`Any` inline and behind a reference — so `reencode_tlb_*` are not vacuous -/
+theorem canonical_cell_examples :
+    canonicalCell env 12 desc_tlb_CurrencyCollection (.mk 0 0 (natToBits 4 1 ++ natToBits 8 5 ++ [false]) []) = true ∧
+    canonicalCell env 12 desc_tlb_CurrencyCollection (cc dictLong) = true ∧
+    canonicalCell env 12 desc_tlb_CurrencyCollection (cc fork) = true ∧
+    canonicalCell env 12 desc_tlb_StateInit (stateInit someCell someCell) = true ∧
+    canonicalCell env 16 desc_tlb_Message extIn = true ∧
+    canonicalCell env 16 desc_tlb_Message extInRefs = true ∧
+    (decode env 16 desc_tlb_Message (Slice.ofCell extInRefs)).isOk = true := by
+  decide +kernel
+
+set_option maxRecDepth 100000 in
+/-- **noncanonical_cell_witnesses** — each condition of the check is needed: the cell is rejected by `canonicalCell`,
+is ACCEPTED by the decoder, and the encoder writes a DIFFERENT cell for the decoded value:
+(1) Grams with a non-minimal length prefix (len = 2, bytes 00 05 → re-encoded with len = 1);
+(2) a dictionary label in the form hml_short where the encoder picks hml_long (root re-encoded as `dictLong`);
+(3) a dictionary value with a non-minimal VarUInteger (root re-encoded as `dictLong`);
+(4) a child cell with two unread bits after the value (`^[Public:bool]`-like: the child is re-encoded without them);
+(5) trailing bits after a StateInit -/
+theorem noncanonical_cell_witnesses :
+    -- (1)
+    (canonicalCell env 12 desc_tlb_CurrencyCollection (.mk 0 0 (natToBits 4 2 ++ natToBits 16 5 ++ [false]) []) = false ∧
+      (match decode env 12 desc_tlb_CurrencyCollection
+          (Slice.ofCell (.mk 0 0 (natToBits 4 2 ++ natToBits 16 5 ++ [false]) [])) with
+        | .ok (v, _) => (match encode env 12 desc_tlb_CurrencyCollection v Builder.empty with
+          | .ok b => decide (b.bits = natToBits 4 1 ++ natToBits 8 5 ++ [false])
+          | _ => false)
+        | _ => false) = true) ∧
+    -- (2) and (3)
+    (canonicalCell env 12 desc_tlb_CurrencyCollection (cc dictShort) = false ∧
+      canonicalCell env 12 desc_tlb_CurrencyCollection (cc dictFat) = false ∧
+      [cc dictShort, cc dictFat].all (fun c =>
+        match decode env 12 desc_tlb_CurrencyCollection (Slice.ofCell c) with
+        | .ok (v, _) => (match encode env 12 desc_tlb_CurrencyCollection v Builder.empty with
+          | .ok b => (match b.refs, dictLong with
+            | [Cell.mk _ _ bits _], Cell.mk _ _ want _ => decide (bits = want)
+            | _, _ => false)
+          | _ => false)
+        | _ => false) = true) ∧
+    -- (4): SimpleLib = public:Bool root:^Cell inside a struct field behind a reference
+    (let T : Ty := .struct (.cons "X" .ref (.struct (.cons "Public" .plain .bool .nil)) .nil)
+     let c : Cell := .mk 0 0 [] [.mk 0 0 [true, false, true] []]
+     canonicalCell env 12 T c = false ∧
+      (match decode env 12 T (Slice.ofCell c) with
+        | .ok (v, _) => (match encode env 12 T v Builder.empty with
+          | .ok b => (match b.refs with
+            | [Cell.mk _ _ bits _] => decide (bits = [true])
+            | _ => false)
+          | _ => false)
+        | _ => false) = true) ∧
+    -- (5)
+    (canonicalCell env 12 desc_tlb_StateInit (.mk 0 0 [false, false, false, false, false, true] []) = false ∧
+      (decode env 12 desc_tlb_StateInit (Slice.ofCell (.mk 0 0 [false, false, false, false, false, true] []))).isOk
+        = true) := by
+  decide +kernel
+
+end CanonTest
 
 /-! ## Regenerated instances -/
 
@@ -232,6 +402,23 @@ theorem roundtrip_tlb_Message (fuel : Nat) (v : Val)
     ∃ rest, decode TongoGen.TlbTypes.env fuel TongoGen.TlbTypes.desc_tlb_Message (Slice.ofCell b'.toCell)
       = .ok (v, rest) :=
   decode_encode _ generated_env_wf _ TongoGen.TlbTypes.wf_tlb_Message fuel v hd b' he
+
+set_option maxRecDepth 100000 in
+/-- the hypotheses of `decode_encode` / `roundtrip_generated` are inhabited by values that hold a DICTIONARY and
+REFERENCES (TEST on literals over the regenerated descriptors): a CurrencyCollection with two extra currencies
+(`HashmapE 32 (VarUInteger 32)`: a fork and two leaves), a StateInit with code and data cells — and what the encoder
+writes for the latter passes the cell-level check -/
+example :
+    let v := Val.list [.int 5, Val.list [Val.list [Val.list [.int 7, .int 8], Val.list [.int 9, .int 1000]]]]
+    let c := Cell.mk 0 0 (natToBits 10 700) []
+    let si := Val.list [.none, .none, Val.some (.cell c), Val.some (.cell c), .nil]
+    inDom TongoGen.TlbTypes.env 12 TongoGen.TlbTypes.desc_tlb_CurrencyCollection v = true ∧
+    (encode TongoGen.TlbTypes.env 12 TongoGen.TlbTypes.desc_tlb_CurrencyCollection v Builder.empty).isOk = true ∧
+    inDom TongoGen.TlbTypes.env 12 TongoGen.TlbTypes.desc_tlb_StateInit si = true ∧
+    (match encode TongoGen.TlbTypes.env 12 TongoGen.TlbTypes.desc_tlb_StateInit si Builder.empty with
+      | .ok b => b.refs.length == 2 && canonicalCell TongoGen.TlbTypes.env 12 TongoGen.TlbTypes.desc_tlb_StateInit b.toCell
+      | _ => false) = true := by
+  decide +kernel
 
 /-- `roundtrip_<T>` for the transaction and account records and the wallet bodies (instances of
 `roundtrip_generated`; their `wf_<T>` obligations are regenerated on every run) -/
@@ -361,6 +548,33 @@ theorem CodecOK_hashmapE (env : Env) (hEnv : EnvWF env) (k t : Ty) (hw : wfb env
       ∀ s : Slice, s.isLibrary = false → decode env fuel (.dictE k t) (s.prepend xs rs) = .ok (v, s) := by
   obtain ⟨xs, rs, hb, _, hng⟩ := decode_encode_inline env hEnv (.dictE k t) hw fuel v hd b b' he
   exact ⟨xs, rs, hb, hng ⟨1, rfl⟩⟩
+
+/-- **CodecOK_hashmapE_anyorder** — the listing order of the entries does not matter to the encoder, and the decoder
+returns them sorted: for a `HashmapE[K, V]` value whose keys are pairwise distinct but listed in ANY order
+(`inDomDictU`: a map filled by `Put` with a signed key type lists them in numeric order, a map built from slices in
+any order), `decode (encode v) = sortDictVal v` — the same entries in ascending order of the encoded key bits (C05's
+`sortKV`; `Hashmap.marshal` sorts first). `inDom` (hence `decode_encode`) covers only the values that are already
+listed in that order, for which `sortDictVal v = v`. -/
+theorem CodecOK_hashmapE_anyorder (env : Env) (hEnv : EnvWF env) (k t : Ty) (hw : wfb env (.dictE k t) = true)
+    (fuel : Nat) (v : Val) (hd : inDomDictU env fuel k t v = true) (b b' : Builder)
+    (he : encode env (fuel + 1) (.dictE k t) v b = .ok b') :
+    ∃ v', sortDictVal (fun x => encode env fuel k x Builder.empty) v = some v' ∧
+      ∃ xs rs, b' = b.app xs rs ∧
+        ∀ s : Slice, s.isLibrary = false → decode env (fuel + 1) (.dictE k t) (s.prepend xs rs) = .ok (v', s) := by
+  obtain ⟨v', hs, hdom, henc⟩ := dictE_anyorder (env := env) (f := fuel) k t v hd
+  rw [← henc b] at he
+  exact ⟨v', hs, CodecOK_hashmapE env hEnv k t hw (fuel + 1) v' hdom b b' he⟩
+
+/-- the any-order domain is inhabited and the sorted value differs (TEST on literals): int8 keys 1, -1 listed in
+numeric order -1, 1 — the bit order is 1 (0x01), -1 (0xff) -/
+example :
+    let v := Val.list [Val.list [.int (-1), .int 1], Val.list [.int 10, .int 20]]
+    inDomDictU (fun _ => none) 3 (.int 8) (.uint 8) v = true ∧
+    inDom (fun _ => none) 4 (.dictE (.int 8) (.uint 8)) v = false ∧
+    sortDictVal (fun x => encode (fun _ => none) 3 (.int 8) x Builder.empty) v
+      = some (Val.list [Val.list [.int 1, .int (-1)], Val.list [.int 20, .int 10]]) := by
+  intro v
+  exact ⟨by decide, by decide, by rfl⟩
 
 /-- **CodecOK_hashmap**: `tlb.Hashmap[K, V]` (the root edge written into the current cell, never empty) as the
 content of a cell: the round trip of C05 again, the decoder ignoring the type of the cell it reads from as long as
@@ -515,6 +729,69 @@ example :
     (TongoGen.AbiOpcodes.inTable.byOp 0xf06c7567).map (·.1) = ["PaymentRequestResponse", "SubscriptionV2PaymentConfirmed"] ∧
     0xf06c7567 ∉ TongoGen.AbiOpcodes.inGood ∧ 0xd53276db ∈ TongoGen.AbiOpcodes.inGood := by
   decide +kernel
+
+/-! ## The encoder never panics (values outside `inDom` included) -/
+
+/-- **marshal_no_panic** — `tlb.Marshal` of ANY value of ANY descriptor into any cell under construction returns a
+cell or an error, never a panic: no domain condition, no well-formedness condition. The values `inDom` excludes are
+covered here: a nil pointer where the schema is not optional (also a nil pointer to a type with a value-receiver
+`MarshalTLB`, which the Go encoder called through the nil pointer before the `fix:`), a `MsgAddress` whose selected
+payload pointer is nil, a `VmCellSlice` without its cell, values of the wrong shape, dictionaries whose value codec
+fails. (By induction on the fuel over the four mutually recursive encoders; C05's `Hashmap.marshal` panics only if the
+value codec does.) -/
+theorem marshal_no_panic (env : Env) (fuel : Nat) (T : Ty) (v : Val) (b : Builder) (p : String) :
+    encode env fuel T v b ≠ .panic p :=
+  ((NPInv.all env fuel).enc T v b).ne p
+
+/-- the case the audit named (TEST on literals): a struct with a NIL pointer to a marshaler type in a plain field, a
+MsgAddress with SumType AddrExtern and no payload: errors -/
+example :
+    (encode (fun _ => none) 6 (.struct (.cons "A" .plain (.uint 32) (.cons "P" .plain (.ptr true (.prim .msgAddress)) .nil)))
+      (Val.list [.int 1, .none]) Builder.empty).isErr = true ∧
+    (encode (fun _ => none) 6 (.prim .msgAddress) (Val.ctor "AddrExtern" .none) Builder.empty).isErr = true := by
+  decide
+
+/-! ## The layering: the ideal level of this model refines C06's specification of `boc.BitString`
+
+`Builder` / `Slice` are bit lists. C06 proves that the byte-level model of `boc.BitString` (shift loops, byte buffer,
+cursors) refines `Op.spec` on an ideal bit list. The theorems below close the gap: every bit-level writer / reader the
+TL-B model uses IS the corresponding `Op.spec` (`WriteRefines` / `ReadRefines`: same success or failure with the same
+error text, same bits, same value, same remaining bits), and composed with `C06.op_refines` the writer / reader acts
+on the byte-level model exactly as on the list (`builder_on_bitstring`, `slice_on_bitstring`). -/
+
+/-- **builder_refines_bitstring**: all writers, over the whole domain of `C06.Op.WF` (uint64 / int64 values, widths
+0..64 for WriteInt incl. the error cases of the repaired code, every width for the big-integer writers) -/
+theorem builder_refines_bitstring :
+    (∀ xs, WriteRefines (fun b => b.writeBits xs) (.writeBitArray xs)) ∧
+    (∀ x, WriteRefines (fun b => b.writeBit x) (.writeBit x)) ∧
+    (∀ v n, v < 2 ^ 64 → WriteRefines (fun b => b.writeUint v n) (.writeUint v n)) ∧
+    (∀ v n, n ≤ 64 → WriteRefines (fun b => b.writeInt v n) (.writeInt v n)) ∧
+    (∀ bs, WriteRefines (fun b => b.writeBytes bs) (.writeBytes bs)) ∧
+    (∀ v n, 0 ≤ v → WriteRefines (fun b => b.writeBigUint v n) (.writeBigUint v n)) ∧
+    (∀ v n, 1 ≤ n → -(2 : Int) ^ (n - 1) ≤ v → v < (2 : Int) ^ (n - 1) →
+      WriteRefines (fun b => b.writeBigInt v n) (.writeBigInt v n)) ∧
+    (∀ v n, v < 2 ^ 64 → WriteRefines (fun b => b.writeLimUint v n) (.writeLimUint v n)) ∧
+    (∀ n, WriteRefines (fun b => b.writeUnary n) (.writeUnary n)) :=
+  ⟨writeBits_refines, writeBit_refines, writeUint_refines, writeInt_refines, writeBytes_refines,
+   writeBigUint_refines, writeBigInt_refines, writeLimUint_refines, writeUnary_refines⟩
+
+/-- **slice_refines_bitstring**: all readers, every width (the width errors included) -/
+theorem slice_refines_bitstring :
+    (∀ n, ReadRefines (fun s => s.readBits n) (.readBits n) Out.bits) ∧
+    ReadRefines (fun s => s.readBit) .readBit Out.bool ∧
+    (∀ n, ReadRefines (fun s => s.readUint n) (.readUint n) Out.nat) ∧
+    (∀ n, ReadRefines (fun s => s.readInt n) (.readInt n) Out.int) ∧
+    (∀ n, ReadRefines (fun s => s.readBytes n) (.readBytes n) Out.bytes) ∧
+    (∀ n, ReadRefines (fun s => s.readBigUint n) (.readBigUint n) (fun v => Out.nat v.toNat)) ∧
+    (∀ n, ReadRefines (fun s => s.readBigInt n) (.readBigInt n) Out.int) ∧
+    (∀ n, n < 2 ^ 64 → ReadRefines (fun s => s.readLimUint n) (.readLimUint n) Out.nat) ∧
+    ReadRefines (fun s => s.readUnary) .readUnary Out.nat :=
+  ⟨readBits_refines, readBit_refines, readUint_refines, readInt_refines, readBytes_refines, readBigUint_refines,
+   readBigInt_refines, readLimUint_refines, readUnary_refines⟩
+
+/-- the stale cases the audit named: `writeInt 5 1` and `writeInt _ 0` are errors, as in the repaired Go (TESTS) -/
+example : (Builder.empty.writeInt 5 1).isOk = false ∧ (Builder.empty.writeInt 5 0).isOk = false ∧
+    (Builder.empty.writeInt (-1) 1).isOk = true ∧ (Builder.empty.writeInt 0 1).isOk = true := by decide
 
 /-- the key descriptors a dictionary admits: exactly those with a fixed width -/
 theorem hashmap_key_widths :
